@@ -36,10 +36,13 @@ def main():
             print(s, "APPLY FAILED", a.stdout[-200:], a.stderr[-200:])
             continue
         out = {"id": s, "checks": {}}
-        for p in ALL:
-            rc, rep, err = run_check(p, repo)
+        from concurrent.futures import ThreadPoolExecutor
+        first = run_check(ALL[0], repo)            # extracts the facts of this tree once
+        with ThreadPoolExecutor(10) as ex:
+            rest = list(ex.map(lambda p: run_check(p, repo), ALL[1:]))
+        for p, (rc, rep, err) in zip(ALL, [first] + rest):
             if rc != 0:
-                out["checks"][p] = {"exit": rc, "reports": [{"key": k, "text": t[:600]} for k, t in rep]}
+                out["checks"][p] = {"exit": rc, "reports": [{"key": k, "text": t[:6000]} for k, t in rep]}
                 if rc == 2:
                     print(s, p, "MACHINERY ERROR", err)
         out["silent"] = not out["checks"]
